@@ -67,6 +67,8 @@ EXPECTED_EDGES = [("server/upstream.LoadBalancedManager.mu", "server/cluster.Sta
 ANCHORED = ["server/upstream/manager.go", "server/upstream/server.go", "server/cluster/state.go", "server/gossip/syncer.go",
             "pkg/gossip/state.go", "pkg/gossip/failuredetector.go"]
 LODIR = os.path.join(VERIF, "harness", "lockorder")
+_MGR, _CL, _GS = "server/upstream.LoadBalancedManager.mu", "server/cluster.State.mu", "pkg/gossip.clusterState.mu"
+REQUIRED_HOLDERS = [(f, _MGR, t) for f in ("(*server/upstream.LoadBalancedManager).AddConn", "(*server/upstream.LoadBalancedManager).RemoveConn") for t in (_CL, _GS)]
 GEN = os.path.join(COQ, "generated", "LockEdges.v")
 STRESS_PKG = "server/upstream"
 STRESS_TEST = "TestVerifHarness_Stress"
@@ -179,6 +181,8 @@ def coq_run_check(wd, rep, acyclic_py):
             "From Piko Require Import Conc.LockOrder Conc.Acyclic Conc.Expected ConcP.LockEdgesP.",
             "Import ListNotations. Open Scope string_scope.",
             "Definition run_edges : list (string * string) := [%s]." % "; ".join("(%s, %s)" % (q(a), q(b)) for a, b in edges),
+            "Definition run_holders : list holder := [%s]." % "; ".join("(%s, %s, %s)" % (q(f.replace("(*", "(^").replace("*)", "^)")), q(a), q(b)) for f, a, b in (rep.get("holders") or [])),
+            "Definition HP := Eval vm_compute in holders_present run_holders. Print HP.",
             "Definition A := Eval vm_compute in acyclic run_edges. Print A.",
             "Definition E := Eval vm_compute in filter (fun e => negb (edge_expected e)) run_edges. Print E."]
     if acyclic_py:
@@ -188,7 +192,7 @@ def coq_run_check(wd, rep, acyclic_py):
                  "Print Assumptions run_no_deadlock."]
     rc, out = coq_eval(wd, "RunEdges", "\n".join(body) + "\n", timeout=600)
     flat = re.sub(r"\s+", " ", out)
-    return {"rc": rc, "acyclic": "A = true" in flat, "acyclic_false": "A = false" in flat, "unexpected_empty": "E = []" in flat,
+    return {"rc": rc, "holders_present": "HP = true" in flat, "acyclic": "A = true" in flat, "acyclic_false": "A = false" in flat, "unexpected_empty": "E = []" in flat,
             "closed": "Closed under the global context" in out, "log": out[-3000:]}
 
 
@@ -529,6 +533,15 @@ def run(ctx):
                            "found_input": False,
                            "replay_obj": {"broken": "theorem:C20_expected_order", "property": ID, "kind": "static", "edge": [a, b],
                                           "edges": edge_objs([(a, b)]), "coq": run_chk["log"][-1500:]}})
+    if run_chk["rc"] == 0 and not run_chk["holders_present"]:
+        have = {tuple(h) for h in (rep.get("holders") or [])}
+        lost = [h for h in REQUIRED_HOLDERS if h not in have]
+        violations.append({"what": ("lock graph: AddConn / RemoveConn no longer tell the cluster state and publish to gossip while holding the manager's mutex "
+                                    "(the hypothesis of C20_atomic_calls_consistent; theorem C20_registry_changes_publish_under_manager_lock fails on the regenerated table): missing %s"
+                                    % "; ".join("%s acquires %s while holding %s" % (f, b, a) for f, a, b in lost))[:1800],
+                           "found_input": False,
+                           "replay_obj": {"broken": "theorem:C20_registry_changes_publish_under_manager_lock", "property": ID, "kind": "static",
+                                          "missing": lost, "holders": sorted(have), "coq": run_chk["log"][-1500:]}})
     # Coq and python must agree about the regenerated list
     if run_chk["rc"] != 0 or run_chk["acyclic"] != (not cycles) or (run_chk["unexpected_empty"] != (not inverse and not [c for c in cycles if len(c) == 2])) \
             or (not cycles and not run_chk["closed"]):
